@@ -69,9 +69,17 @@ def cases(draw, depth):
     if k == 8:
         feats.add("qualify")
         part = q.col(s1, draw(st.sampled_from(("int", "text"))))
-        cond = draw(st.sampled_from((f"RANK() OVER (PARTITION BY {part} ORDER BY {c1}) = 1", f"COUNT(*) OVER (PARTITION BY {part}) > 1", f"DENSE_RANK() OVER (ORDER BY {c1} DESC NULLS LAST) <= 2")))
+        atoms = (f"RANK() OVER (PARTITION BY {part} ORDER BY {c1}) = 1", f"COUNT(*) OVER (PARTITION BY {part}) > 1", f"DENSE_RANK() OVER (ORDER BY {c1} DESC NULLS LAST) <= 2", f"COUNT({c1}) OVER (PARTITION BY {part}) = 2", f"SUM({c1}) OVER (PARTITION BY {part}) > {c1}", f"{c1} > 0")
+        # 1-3 conditions: the rewrite for engines without QUALIFY hoists EVERY window call into its own inner column
+        conds = [draw(st.sampled_from(atoms)) for _ in range(draw(st.sampled_from((1, 2, 2, 3))))]
+        cond = conds[0]
+        for c in conds[1:]:
+            cond += f" {draw(st.sampled_from(('AND', 'OR')))} {c}"
+        if len(conds) > 1:
+            feats.add("qualify:multi-window")
         where = f" WHERE {q.bool_expr(s1, 1, False)}" if draw(st.booleans()) else ""
-        sql = f"SELECT {c1} AS o0, {q.int_expr(s1, 1)} AS o1 FROM {t1} AS x1{where} QUALIFY {cond}"
+        proj2 = draw(st.sampled_from((q.int_expr(s1, 1), f"ROW_NUMBER() OVER (PARTITION BY {part} ORDER BY {allc})", f"{c1} + 1")))
+        sql = f"SELECT {c1} AS o0, {proj2} AS o1 FROM {t1} AS x1{where} QUALIFY {cond}"
         return {"sql": sql, "tables": tables, "features": sorted(feats | q.f), "ordered": False, "ncols": 2, "types": ["int", "int"], "dialect_only": only}
     feats.add("distinct-on")
     key = q.col(s1, draw(st.sampled_from(("int", "text"))))
